@@ -101,7 +101,7 @@ static void perturb_cb(int site)
         else if (site == SLUV_Y_SUB_READ && p < 300u) { nap_us(1 + (long)((r >> 10) % 100)); t->perturbs++; }
         break;
     case 4: /* supernode numbering vs subscript allocation */
-        if (site == SLUV_Y_NSUPER_LSUB) { if (p < 600u) { nap_us(1 + (long)((r >> 10) % 400)); t->perturbs++; } }
+        if (site == SLUV_Y_NSUPER_LSUB || site == SLUV_Y_LSUB_FILL) { if (p < 600u) { nap_us(1 + (long)((r >> 10) % 400)); t->perturbs++; } }
         else if (p < 60u * lvl) { sched_yield(); t->perturbs++; }
         break;
     case 5: /* scheduler: long sleeps at scheduler exit and before release (C04) */
@@ -242,6 +242,7 @@ void mon_analyze(const ev_t *ev, size_t nev, int_t n, const int_t *etree, const 
     /* finished prune brackets: swaps known at end */
     long *prune_swaps = NULL; size_t nprune = 0, capprune = 0;
     ovl_t *ov = NULL; size_t nov = 0, capov = 0;
+    struct { long pos, len, col; } *la = NULL; size_t nla = 0, capla = 0;      /* reservations of L subscripts */
     /* at-most-once set of (jcol,fsupc) */
     size_t hcap = 1; while (hcap < 4 * nev + 16) hcap <<= 1;
     uint64_t *hset = xcalloc(hcap, sizeof(uint64_t));
@@ -408,7 +409,10 @@ void mon_analyze(const ev_t *ev, size_t nev, int_t n, const int_t *etree, const 
             break; }
         case SLUV_E_SUB_READ_END: sb[t].open = 0; break;
         case SLUV_E_NSUPER: if (x->b >= 0 && x->b < N) col_ns[x->b] = x->c; break;
-        case SLUV_E_LSUB_ALLOC: { long c = x->b; if (c >= 0 && c < N && col_ns[c] >= 0 && col_ns[c] <= N) ns_pos[col_ns[c]] = x->c; break; }
+        case SLUV_E_LSUB_ALLOC: { long c = x->b; if (c >= 0 && c < N && col_ns[c] >= 0 && col_ns[c] <= N) ns_pos[col_ns[c]] = x->c;
+            if (nla == capla) { capla = capla ? 2 * capla : 256; la = realloc(la, capla * sizeof *la); }
+            la[nla].pos = x->c; la[nla].len = x->d; la[nla].col = x->b; ++nla;
+            break; }
         case SLUV_E_DYN_SETMAP: {
             st->dynsetmaps++;
             long c = x->b; if (c < 0 || c >= N) break;
@@ -490,6 +494,19 @@ void mon_analyze(const ev_t *ev, size_t nev, int_t n, const int_t *etree, const 
         long prev = -1;
         for (long s = 0; s <= N; ++s) { if (ns_pos[s] < 0) continue; if (prev >= 0 && ns_pos[s] < prev) st->nsuper_order_mismatch++; prev = ns_pos[s]; }
     }
+    /* ---- reservations of L subscripts: every supernode asks for its rows twice over (rows + prunable copy); the extents
+       the threads were given (position from the allocator, length as announced at the request site) must not overlap ---- */
+    if (nla > 1) {
+        /* insertion sort by position (allocations are nearly in order already) */
+        for (size_t i = 1; i < nla; ++i) { size_t j = i; while (j > 0 && la[j - 1].pos > la[j].pos) { long tp = la[j].pos, tl = la[j].len, tc = la[j].col; la[j] = la[j - 1]; la[j - 1].pos = tp; la[j - 1].len = tl; la[j - 1].col = tc; --j; } }
+        for (size_t i = 1; i < nla; ++i)
+            if (la[i - 1].pos + la[i - 1].len > la[i].pos) {
+                EFAIL("C09|lsub-extents-overlap", "the L subscripts of the supernode starting at column %ld (position %ld, %ld entries incl. the prunable copy) run into those of column %ld (position %ld)",
+                      la[i - 1].col, la[i - 1].pos, la[i - 1].len, la[i].col, la[i].pos);
+                break;
+            }
+    }
+    free(la);
     for (int t = 0; t < MAXT; ++t) st->threads_with_panels += threads_panels[t];
     (void)nprocs; (void)tid_pnum; (void)waited; (void)piv_seq;
     free(take_cnt); free(begin_cnt); free(piv_cnt); free(rel_cnt); free(done_cnt); free(pbeg_cnt); free(taker); free(ptype);
